@@ -59,8 +59,20 @@ pub trait Interface: ErrorHandler {
     /// handler, the rest of that message (up to and including its
     /// terminator) is discarded and execution continues with the next
     /// message.
-    async fn run<'a>(&mut self, mut input: &'a [u8], response: &mut impl crate::Write) -> &'a [u8] {
+    async fn run<'a>(&mut self, input: &'a [u8], response: &mut impl crate::Write) -> &'a [u8] {
         let mut header = self.root_node();
+        self.run_from(&mut header, input, response).await
+    }
+
+    /// Same as [Interface::run], but starts at the header path `path` and stores the
+    /// path reached at the end of the processed input there, so that a program message
+    /// whose rest has not arrived yet can be continued by a later call.
+    #[doc(hidden)]
+    async fn run_from<'a>(
+        &mut self, path: &mut &'static tree::Node, mut input: &'a [u8],
+        response: &mut impl crate::Write,
+    ) -> &'a [u8] {
+        let mut header = *path;
 
         while !input.is_empty() {
             let result = parser::parse(self.root_node(), header, input);
@@ -71,6 +83,7 @@ pub trait Interface: ErrorHandler {
             if let Err(ParseError::Incomplete) = result {
                 #[cfg(feature = "defmt")]
                 defmt::trace!("Incomplete Input");
+                *path = header;
                 return input;
             } 
             else if let Err(error) = result {
@@ -85,7 +98,10 @@ pub trait Interface: ErrorHandler {
                         header = self.root_node();
                         continue;
                     }
-                    None => return input,
+                    None => {
+                        *path = self.root_node();
+                        return input;
+                    }
                 }
             }
 
@@ -114,6 +130,7 @@ pub trait Interface: ErrorHandler {
 
             input = i;
         }
+        *path = header;
         &[][..]
     }
 
@@ -123,6 +140,8 @@ pub trait Interface: ErrorHandler {
     
         let mut proc_offset = 0;
         let mut read_offset = 0;
+        // The header path at `proc_offset`, kept while a message is only partly received.
+        let mut header = self.root_node();
     
         loop {
             let count = adapter.read(&mut cmd_buf[read_offset..]).await?;
@@ -136,7 +155,7 @@ pub trait Interface: ErrorHandler {
                 let terminator_pos = read_offset + position;
                 let data = &cmd_buf[proc_offset..=terminator_pos];
     
-                let remaining = self.run(data, &mut res_buf).await;
+                let remaining = self.run_from(&mut header, data, &mut res_buf).await;
 
                 if !res_buf.is_empty() {
                     adapter.write(&res_buf).await?;
@@ -169,6 +188,7 @@ pub trait Interface: ErrorHandler {
                 #[cfg(feature = "defmt")]
                 defmt::warn!("SCPI buffer overflow, resetting buffer");
                 read_offset = 0;
+                header = self.root_node();
             }
         }
     }
